@@ -20,7 +20,7 @@ def corpus(tier, rnd):
     files = [p for p in files if os.path.getsize(p) < (30000 if tier == 'quick' else 400000)]
     if tier == 'quick':
         rnd.shuffle(files)
-        files = files[:40]
+        files = files[:100]
     return [(os.path.relpath(p, build.REPO), open(p, 'rb').read()) for p in files]
 
 
@@ -177,7 +177,7 @@ def run(ctx):
     items = []
     for i, (name, A) in enumerate(base + trunc):
         # every archive gets a slice of the prefix list; small generated archives carry the long tail
-        k = 3 if ctx.tier == 'quick' else 12
+        k = 5 if ctx.tier == 'quick' else 12
         mine = [prefs[(i * k + j) % len(prefs)] for j in range(k)]
         items.append((name, A, mine))
     # make sure each prefix is used at least once
